@@ -46,7 +46,7 @@ PROBES = ["kind:p2pk", "kind:p2pkh", "kind:multisig", "kind:p2sh-multisig", "kin
           "sighash_direct_256", "codeseparator_script", "noncommitted_change_still_valid", "committed_change_invalidates",
           "revalidate_fresh_equal", "default_flags_verdict_checked", "inputs>=253", "spendable_form_text", "spendable_form_dict", "spendable_form_bin", "wire_big_inputs", "wire_big_outputs",
           "wire_big_out_script", "wire_big_in_script", "wire_big_witness_item", "wire_big_witness_count",
-          "oneshot_create_signed_tx", "oneshot_refused_missing_key"]
+          "oneshot_create_signed_tx", "oneshot_refused_missing_key", "check_solution_entry"]
 # (wire_tx_* probes are fired by the wire_tx step, which only the S-WIRE planner emits; they are declared there)
 
 _STD = None
@@ -957,6 +957,29 @@ def _op_validate(ctx, W, st):
         exp = sum(1 for v in verdicts if not v.valid)
         if n is not None and n != exp:
             ctx.violate("C06", "bad-solution-count", {"got": n, "expected": exp})
+    if how == "check_solution":
+        # the raising entry: returns normally exactly for a valid input
+        from pycoin.coins.SolutionChecker import ScriptError
+        for j, v in enumerate(verdicts):
+            u = cp.u[j] if j < len(cp.u) else None
+            if v.valid is None and u is not None:
+                continue
+            try:
+                cp.obj.check_solution(j, flags=flags)
+                got = True
+            except ScriptError:
+                got = False
+            except Exception as e:
+                got = None
+                if u is not None:
+                    ctx.violate("C06", "validation-raised", {"input": j, "exc": type(e).__name__, "msg": str(e)[:160], "when": "check_solution"})
+            ctx.probe("check_solution_entry")
+            if u is None:
+                if got is True:
+                    ctx.violate("C06", "valid-without-spent-output", {"input": j, "entry": "check_solution"})
+            elif got is not None and got != v.valid:
+                ctx.violate("C06", "standard-verdict-mismatch", {"input": j, "pycoin": got, "model": v.valid, "why": v.why, "kind": v.kind,
+                                                                "when": "check_solution", "signed": list(v.signed)})
     # unknown spent output => never valid
     for j, u in enumerate(cp.u):
         if u is None:
